@@ -58,6 +58,7 @@ JOBS = [
     # ---- cassettes: in-memory, file-based, MemoryRecording, TapeCassette base methods
     dict(job=('specs.cassettes', 'in_memory_roundtrip', {}), props=['C07', 'C11', 'C02', 'C09', 'C05', 'C01']),
     dict(job=('specs.cassettes', 'in_memory_get', {}), props=['C07', 'C11']),
+    dict(job=('specs.cassettes', 'in_memory_last_id', {}), props=['C07']),
     dict(job=('specs.cassettes', 'memory_recording', {}), props=['C07', 'C11', 'C01', 'C05', 'C18', 'C04']),
     dict(job=('specs.cassettes', 'in_memory_create', {}), props=['C07', 'C10', 'C04']),
     dict(job=('specs.cassettes', 'in_memory_iter', {}), props=['C10', 'C19']),
